@@ -83,6 +83,8 @@ func main() {
 	prop := flag.String("prop", "all", "property id (or all)")
 	slow := flag.Int("slow", 0, "print the N slowest obligations")
 	only := flag.String("func", "", "verify only functions whose display name contains this string")
+	writeBindings := flag.String("write-bindings", "", "write the binding table (locals of every function under contract) to this file and exit")
+	bindingsFile := flag.String("bindings", "/verif/contracts/bindings.json", "binding table used to follow renamed locals")
 	onlyFiles := flag.String("files", "", "verify only functions declared in these source files (comma-separated path suffixes); modular verification makes this complete for a change confined to those files")
 	tier := flag.String("tier", "quick", "quick|thorough")
 	evidence := flag.String("evidence", "", "evidence file to write")
@@ -137,6 +139,22 @@ func main() {
 		for _, f := range files {
 			prog.ReadSpecFile(f)
 		}
+	}
+	if *writeBindings != "" {
+		tbl := map[string][]LocalBinding{}
+		for _, fc := range prog.Order {
+			if fc.Decl != nil && fc.Pkg != nil && fc.Pkg.TypesInfo != nil {
+				tbl[prog.funcDisplayName(fc)] = bindingsOf(fc.Pkg.TypesInfo, fc.Decl)
+			}
+		}
+		data, _ := json.MarshalIndent(tbl, "", " ")
+		os.MkdirAll(filepath.Dir(*writeBindings), 0o755)
+		os.WriteFile(*writeBindings, data, 0o644)
+		fmt.Printf("govc: bindings of %d functions written to %s\n", len(tbl), *writeBindings)
+		return
+	}
+	if data, err := os.ReadFile(*bindingsFile); err == nil {
+		json.Unmarshal(data, &bindingTable)
 	}
 	reg := NewSpecReg(prog, ss)
 	reg.Build()
